@@ -529,6 +529,8 @@ Proof.
   intros until o. intros E Hok. unfold decide in E.
   destruct (c_suspend spec) eqn:Esus.
   { inversion E; subst; cbn. split; [auto|]. split; [auto|]. split; [lia|]. split; [exact Hok|]. left. auto. }
+  destruct (c_tz_ok spec) eqn:Etz; cbn [negb] in E.
+  2:{ inversion E; subst; cbn. split; [auto|]. split; [auto|]. split; [lia|]. split; [exact Hok|]. left. auto. }
   destruct (next_schedule_time next fuel (c_created spec) (st_last st) (c_deadline spec) now) as [| |[t|]] eqn:EN.
   { inversion E; subst; cbn. split; [auto|]. split; [auto|]. split; [lia|]. split; [exact Hok|]. left. auto. }
   { inversion E; subst; cbn. split; [auto|]. split; [auto|]. split; [lia|]. split; [exact Hok|]. left. auto. }
@@ -875,6 +877,7 @@ Theorem cron_forbid : forall fuel spec st jobs uid now fc upd0 hd st' jobs' uid'
 Proof.
   intros until o. unfold decide. intros E HF Hne.
   destruct (c_suspend spec); [inversion E; subst; reflexivity|].
+  destruct (c_tz_ok spec); cbn [negb] in E; [|inversion E; subst; reflexivity].
   destruct (next_schedule_time next fuel (c_created spec) (st_last st) (c_deadline spec) now) as [| |[t|]];
     try (inversion E; subst; reflexivity);
     try (apply fin_spec in E; tauto).
@@ -965,7 +968,7 @@ Qed.
 (* Non-vacuity                                                          *)
 (* ------------------------------------------------------------------ *)
 
-Definition ex_spec : cspec := mkSpec (- sec) false Forbid None (Some 1) (Some 1).
+Definition ex_spec : cspec := mkSpec (- sec) false Forbid None (Some 1) (Some 1) true.
 Definition ex_state : cstate :=
   mkState ex_spec (mkStatus None [] None)
           [mkJob 7 1 OwnThis PhCompleted (Some 5) (Some 6); mkJob 8 2 OwnThis PhCompleted (Some 6) (Some 7)] 3.
@@ -997,6 +1000,44 @@ Proof.
   cbv zeta. split; [|split; [|split; vm_compute; reflexivity]].
   - repeat split. exists 10, (5 * sec). repeat split. vm_compute. discriminate.
   - intros (_ & _ & ttl & fin & E1 & E2 & H). inversion E1; inversion E2; subst. vm_compute in H. apply H. reflexivity.
+Qed.
+
+(* ------------------------------------------------------------------ *)
+(* The zone the schedule is evaluated in                                *)
+(* ------------------------------------------------------------------ *)
+
+(* main: whenever spec.timeZone is set and loads (and the schedule string does
+   not embed a zone of its own), the string handed to the parser carries it and
+   the schedule is evaluated in it - for EVERY schedule kind *)
+Theorem cron_zone_is_spec : forall (k : skind) (z : Z),
+  validate_tz (TzLoads z) = true /\
+  format_schedule (TzLoads z) (mkSstr k None) = FmtPrefixed z /\
+  zone_used (TzLoads z) (mkSstr k None) = ZNamed z.
+Proof. intros k z. repeat split. Qed.
+
+(* the complete case table: embedded zone, else spec.timeZone, else local *)
+Theorem cron_zone_cases : forall tz s,
+  zone_used tz s =
+  match ss_embedded s with
+  | Some e => ZNamed e
+  | None => match tz with TzLoads z => ZNamed z | _ => ZLocal end
+  end.
+Proof. intros tz [k [e|]]; destruct tz; reflexivity. Qed.
+
+(* the kind of the schedule never matters *)
+Theorem cron_zone_kind_irrelevant : forall tz k1 k2 e,
+  format_schedule tz (mkSstr k1 e) = format_schedule tz (mkSstr k2 e) /\
+  zone_used tz (mkSstr k1 e) = zone_used tz (mkSstr k2 e).
+Proof. intros tz k1 k2 [e|]; destruct tz; split; reflexivity. Qed.
+
+(* a zone that does not load: nothing is ever started *)
+Theorem cron_invalid_zone_no_start : forall next lenient fuel s now fc s' o,
+  reconcile next lenient fuel s now fc = (s', o) -> c_tz_ok (s_spec s) = false -> o_creates o = [].
+Proof.
+  intros next lenient fuel s now fc s' o. unfold reconcile.
+  destruct (cleanup (s_spec s) (s_status s) (s_jobs s)) as [[[st1 jobs1] hd] upd1].
+  unfold decide. intros E Hs. rewrite Hs in E. cbn [negb] in E.
+  destruct (c_suspend (s_spec s)); inversion E; subst; reflexivity.
 Qed.
 
 (* ------------------------------------------------------------------ *)
@@ -1042,4 +1083,12 @@ Proof.
   destruct (finished (g_phase f)) eqn:Eph; [|discriminate].
   split; [split; [reflexivity|]|lia]. split; [destruct (g_deleting f); [discriminate|reflexivity]|].
   exists ttl, fi. repeat split; auto. lia.
+Qed.
+
+Lemma law_zone_model : forall tz s,
+  law_zone tz s (format_schedule tz s) (validate_tz tz)
+           (match ss_kind s, validate_tz tz with
+            | KEvery, _ => None | _, false => None | _, true => Some (zone_used tz s) end) = true.
+Proof.
+  intros tz [k [e|]]; destruct tz, k; cbn; rewrite ?Z.eqb_refl; reflexivity.
 Qed.
